@@ -2,6 +2,16 @@
 """Adds the 'needs' text to seeded/*/meta.json (from the table below) and regenerates seeded/README.md."""
 import json, os, glob
 NEEDS = {
+ 'C02c-empty-side-line-from-wrong-count': 'a hunk with exactly one empty side (diff -U0 pure deletion) applied with -R: the new-side line is off by one, the insertion lands one line early (reported by C01 and C12; C02 leaves context-free empty-side hunks to C01)',
+ 'C03c-line-count-diff-ignores-direction': 'a -R entry whose file patch has two hunks, an earlier one changing the line count: later hunks are spliced at positions shifted by twice that change',
+ 'C05c-failure-index-stored-not-min': 'same slip as C06-fetch-min-to-store, written for C05: schedule-dependent, so C05 (serial schedule) is silent and C06 reports it',
+ 'C06c-backup-window-from-series-end-parallel': 'same slip as C08-backup-window-from-series-end, written for C06: reported by C06 (small --backup-count workload) and C08',
+ 'C07c-compression-pass-reversed': 'a component merged three times each time under an earlier-seen name (f2->f3, f1-f2, f0-f1 after f0,f1 were seen): the flattening pass run downwards resolves to the grandparent',
+ 'C09c-create-over-file-created-in-same-run': 'a file created earlier in the same invocation and created again from /dev/null (or prepended to with -U0): overwritten in one push, refused / prepended when the pushes are split',
+ 'C12c-vertical-tab-name-unquoted': 'a quoted file name containing a vertical tab: written unquoted, read back cut at the tab',
+ 'C13c-space-name-unquoted-in-reject': 'a failing patch on a file whose name contains a space: the reject header names it unquoted and parses as a patch for the first word',
+ 'C14c-reject-bypass-only-when-not-quiet': '-q, a failing patch whose target sits in a directory that does not exist: the ENOENT of the reject is an error instead of a bypass, nothing is saved',
+ 'C17c-empty-series-with-applied-unwrap': 'a non-empty .pc/applied-patches and a series without entries: unwrap on the last series patch, exit 101',
  'C19b-only-head-component-judged': 'a name whose ".." is not the first component after -pN stripping (a/sub/../../victim at -p1, ./../victim at -p0)',
  'C15b-refused-rename-reinserts-source': 'a git rename onto an existing non-empty file (refused) whose source was edited by an earlier patch of the same push: the source entry forgets it was on disk and is rewritten in place',
  'C16b-only-renames-linked-in-distributor': '--threads >= 2, a non-rename patch with differing old/new names (old absent), another patch touching the file under its plain name, the two names on different workers',
